@@ -366,3 +366,89 @@ theorem C16_will_at_most_once_seq (caps : Caps) (s : Server) (hr : ReachSeq caps
     exact fun h => ((tickWills_willDelayed s t).2 d).mp hm |>.2 e he h.symm
 
 end Mochi.Broker
+
+/-! ## Non-vacuity: a subscriber, a will client, a client with a delayed will -/
+namespace Mochi.Broker
+open Mochi.Topics
+
+/-- `s` (connection 1, object 1) subscribes to `x`; `c1` (connection 2, object 2) has the will `x ← w`, no delay; `c2`
+    (connection 3, object 3, session expiry 100 s) has the will `x ← d` with a delay of 50 s -/
+def c16History : List Op :=
+  [.connect 1 { ver := 5, id := [115] },
+   .recv 1 (.subscribe 1 0 [{ filter := [120] }]),
+   .connect 2 { ver := 5, id := [99, 49], will := some { topic := [120], payload := [119] } },
+   .connect 3 { ver := 5, clean := false, id := [99, 50], sei := some 100,
+                will := some { topic := [120], payload := [100], delay := 50 } }]
+
+def c16State : Server := run (init {}) c16History
+
+theorem c16State_reach : ReachSeq {} c16State := ReachSeq.init.run c16History (by decide) (by decide)
+
+/-- the hypotheses of the theorems hold for objects 2 and 3 -/
+example : 2 < c16State.objs.length ∧ (getObj c16State 2).inline = false ∧ (getObj c16State 2).stopped = false ∧
+    (getObj c16State 2).isOpen = true ∧ (getObj c16State 2).conn = 2 ∧ (getObj c16State 2).will.flag = true ∧
+    (getObj c16State 2).will.delay = 0 ∧ (getObj c16State 3).conn = 3 ∧ (getObj c16State 3).will.delay = 50 := by decide
+
+/-- **the will client is dropped**: its will reaches the subscriber on connection 1, then the will event; nothing else -/
+example : (step c16State (.drop 2)).2.filterMap pubConn = [1] ∧ (step c16State (.drop 2)).2.length = 2 ∧
+    willEvent [99, 49] ∈ (step c16State (.drop 2)).2 ∧ (step c16State (.drop 2)).1.willDelayed.length = 0 := by decide
+
+/-- `C16_drop_publishes_will_iff` instantiated: the outputs are the will outputs -/
+example : (step c16State (.drop 2)).2 = willOutputs (peerLost c16State 2) (getObj c16State 2) :=
+  (C16_drop_publishes_will_iff {} c16State c16State_reach 2 (by decide) (by decide) (by decide)).1 ⟨by decide, by decide⟩
+
+/-- … and who receives it (`C16_drop_will_receivers_partial` instantiated) -/
+example : ∃ o, (step c16State (.drop 2)).2 = o ++ [willEvent [99, 49]] ∧
+    ∀ n, DeliversExactly (peerLost c16State 2) (willMsg (getObj c16State 2)) o n :=
+  C16_drop_will_receivers_partial {} c16State c16State_reach 2 (by decide) (by decide) (by decide) (by decide) (by decide)
+    (Or.inl (by decide)) (by decide) (by decide) (by decide)
+
+/-- **a delayed will**: the drop writes nothing and registers the will, due at `NOW + 50` -/
+example : (step c16State (.drop 3)).2 = [] ∧
+    (step c16State (.drop 3)).1.willDelayed.map (fun e => (e.1, e.2.expiry)) = [([99, 50], NOW + 50)] := by decide
+
+/-- **… cancelled by a resumption in time**: the CONNECT of the same client id removes it, nothing but the CONNACK
+    (session present) is written, and the tick after the delay publishes nothing -/
+example :
+    let s1 := (step c16State (.drop 3)).1
+    let r := step s1 (.connect 4 { ver := 5, clean := false, id := [99, 50], sei := some 100 })
+    r.2 = [.wrote 4 (.connack 5 true 0 1024 2 none)] ∧ r.1.willDelayed.length = 0 ∧
+    (step r.1 (.tick "wills" (NOW + 3000))).2 = [] := by decide
+
+/-- **… published by the tick once the delay has elapsed** (not before), reaching the subscriber; the entry is removed,
+    a second tick publishes nothing -/
+example :
+    let s1 := (step c16State (.drop 3)).1
+    (step s1 (.tick "wills" (NOW + 50))).2 = [] ∧
+    (step s1 (.tick "wills" (NOW + 51))).2.filterMap pubConn = [1] ∧
+    willEvent [99, 50] ∈ (step s1 (.tick "wills" (NOW + 51))).2 ∧
+    (step s1 (.tick "wills" (NOW + 51))).1.willDelayed.length = 0 ∧
+    (step (step s1 (.tick "wills" (NOW + 51))).1 (.tick "wills" (NOW + 52))).2 = [] := by decide
+
+/-- **DISCONNECT**: reason 0x00 closes the connection and writes nothing else; reason 0x04 publishes the will -/
+example : (step c16State (.recv 2 (.disconnect 0 none))).2 = [.closed 2] ∧
+    (step c16State (.recv 2 (.disconnect 4 none))).2.filterMap pubConn = [1] ∧
+    willEvent [99, 49] ∈ (step c16State (.recv 2 (.disconnect 4 none))).2 := by decide
+
+/-- `C16_disconnect_iff` instantiated -/
+example : (step c16State (.recv 2 (.disconnect 0 none))).2 = [.closed 2] :=
+  ((C16_disconnect_iff {} c16State c16State_reach 2 0 none (by decide) (by decide) (by decide) (by decide)).1
+    (by decide)).1
+
+/-- **a take-over**: the CONNECT of `c1` on connection 4 while connection 2 is live: DISCONNECT 0x8E and close on
+    connection 2, the CONNACK on 4, then the old connection's will reaches the subscriber (a take-over publishes the
+    will) -/
+example :
+    let r := step c16State (.connect 4 { ver := 5, id := [99, 49] })
+    r.2.take 3 = [.wrote 2 (.disconnect 5 0x8E), .closed 2, .wrote 4 (.connack 5 false 0 1024 2 none)] ∧
+    r.2.filterMap pubConn = [1] ∧ willEvent [99, 49] ∈ r.2 ∧ r.2.length = 5 := by decide
+
+end Mochi.Broker
+
+#print axioms Mochi.Broker.C16_drop_publishes_will_iff
+#print axioms Mochi.Broker.C16_drop_will_receivers_partial
+#print axioms Mochi.Broker.C16_disconnect_iff
+#print axioms Mochi.Broker.C16_disconnect_violation_publishes_will
+#print axioms Mochi.Broker.C16_delayed_will_iff
+#print axioms Mochi.Broker.C16_will_at_most_once_seq
+#print axioms Mochi.Broker.c16State_reach
